@@ -62,6 +62,11 @@ def check_reuse(case):
     obj = body.ContentBody(case['first'])
     ch = case['ch']
     call('marshal', frame.marshal, obj, ch)
+    for bad_value, bad_ch in ((case.get('bad', 'text'), ch), (b'x', 65536 + ch)):
+        try:          # a refused encode must not influence the next one
+            frame.marshal(body.ContentBody(bad_value), bad_ch)
+        except Exception:
+            pass
     obj.value = case['data']
     check_encoded_body(obj, case['data'], ch)
     ph = header.ProtocolHeader(*case['v1'])
@@ -186,6 +191,7 @@ COMPONENTS = [
     Component('reuse', check_reuse,
               strategy=lambda tier: st.fixed_dictionaries({
                   'first': S.bodies(4200), 'data': S.bodies(4200), 'ch': S.CHANNELS,
+                  'bad': st.sampled_from(['text', [1, 2], ('t',), 5, None, 1.5]),
                   'v1': st.tuples(*[st.integers(0, 255)] * 3),
                   'v2': st.tuples(*[st.integers(0, 255)] * 3)}),
               nontrivial=lambda c: c['first'] != c['data'],
